@@ -62,7 +62,8 @@ def main(tier, seed):
     rep.rule = (
         "S->C: every frame of the small scope (Design_MC) x 14 formula shapes, built by /repo and compared cell by cell and "
         "label by label with the Abs design; C->S: random worlds (3-20 rows, 2-4 levels per factor, str / Categorical / "
-        "ordered Categorical / integer-via-C columns, numeric calls) x generated formulas, each build judged by Design_Trace. "
+        "ordered Categorical / integer-via-C columns, numeric calls) x generated formulas, each build judged by Design_Trace, "
+        "and the same designs evaluated on new data (all training rows reordered and partly repeated) judged against the same labels. "
         "Non-trivial = distinct (formula, data) cases whose design has >= 3 (S->C) / >= 4 (C->S) columns."
     )
     rep.assumptions = [
@@ -75,10 +76,12 @@ def main(tier, seed):
         design_mc.run(rep, "C04", seed, n=3, nf=3, ng=2)
         design_trace.run(rep, "C04", 900, seed, {"nmax": 16})
         design_trace.run(rep, "C04", 700, seed, {"nmax": 16, "quarters": True, "salt": 44})
+        design_trace.run(rep, "C04", 700, seed, {"nmax": 12, "newdata": True, "salt": 45, "hier": 0.4})
     else:
         design_mc.run(rep, "C04", seed, n=4, nf=3, ng=2, xfull=False)
         design_mc.run(rep, "C04", seed, n=3, nf=3, ng=3, xfull=True)
         design_trace.run(rep, "C04", 25000, seed, {"nmax": 30, "max_terms": 5})
         design_trace.run(rep, "C04", 15000, seed, {"nmax": 30, "max_terms": 5, "quarters": True, "salt": 44})
+        design_trace.run(rep, "C04", 15000, seed, {"nmax": 24, "max_terms": 5, "newdata": True, "salt": 45, "hier": 0.4})
     rep.exhaustive = True
     return rep.finish()
